@@ -18,6 +18,9 @@ CFG = {'assumptions': ["every position, size and n stays below 2^31 - 64 (Go's i
         'bitmap.Builder/query': 'a Builder history, then the same four queries on Builder.Words',
         'bitmap.OfMany/asOf': 'bitmap.OfMany(subs, sizes) compared with bitmap.Of(shifted concatenation, sum of sizes): only whether they agree',
         'bitmap.Builder/asOfMany': 'bitmap.NewBuilder + one Builder.Extend per segment compared with bitmap.OfMany: whether Words equals it word for word and Offset is the sum',
+        'bitmap.Builder/mem': '&bitmap.Builder{Words: buf[:k], Offset: off} over a junk-filled caller buffer; Extend / Set / roll-back (Words = Words[:k]; Offset = 64k) history; Words and Offset after every op',
+        'bitmap.Of/session': 'Of(nil, n); a Builder working in place on the result; Of([], n) and OfMany of bit-less segments again; junk written into the results; Of([], n) again',
+        'bitmap.OfMany/shared': 'bitmap.OfMany twice on sub-lists that are windows of one flat buffer; the buffer must be unchanged',
         'bitmap.Builder': 'bitmap.NewBuilder + Builder.Extend / Builder.Set history, Words and Offset after every call'},
  'rule': 'cases = Of: every subset of {0,1,62,63,64,65,127,128} x 18 choices of n (absent, negative down to -2^31, smaller, last+1, '
          'larger, word-aligned) + random ascending lists in 5 styles (dense, small gaps, word boundaries, gaps > 3 '
@@ -30,7 +33,7 @@ CFG = {'assumptions': ["every position, size and n stays below 2^31 - 64 (Go's i
          'integers single and in slices of 0..5 (boundaries, single bits, complements, random), on Of(...) bitmaps, on '
          'non-integer types; Rank64/Rank128/NextOne/PrevOne on Of(ps,n) and on Builder.Words (i at / next to a set position, on word '
          'edges, random; e = end, = i, i+1..i+65, random); OfMany against Of(shifted concatenation, sum of sizes) with positions >= size in any '
-         'segment (non-ascending concatenations, panics): only the agreement of the two calls is observed, and where OfMany does not panic also its set of bits and its agreement with a Builder fed the same segments (overhangs of 64..200 past sizes 1..40 followed by small positions, so that words are revisited); exhaustive: Get/SafeGet at every i in [-130, 64*len+130] on 6 small bitmaps, '
+         'segment (non-ascending concatenations, panics): only the agreement of the two calls is observed, and where OfMany does not panic also its set of bits and its agreement with a Builder fed the same segments (overhangs of 64..200 past sizes 1..40 followed by small positions, so that words are revisited); Builder literals over a junk-filled scratch buffer with roll-backs to a word-aligned checkpoint between calls (random + every history of 1..3 ops over a 7-op alphabet), Of/Builder/Of sessions on the shared result of Of(nil, n), OfMany on sub-lists carved from one buffer (in order, out of order, overlapping, the same list twice) run twice; every bitmap returned by Of / OfMany is overwritten with junk by the caller after it has been rendered; exhaustive: Get/SafeGet at every i in [-130, 64*len+130] on 6 small bitmaps, '
          'every Builder history of 1..2 (thorough 3) calls over a 10-call alphabet, every OfMany list of 0..3 segments over a 12-segment alphabet (5 with overhang). Non-trivial: '
          'non-empty position list / bitmap with a 1-bit / probed word neither 0 nor all-ones / >1 segment with a '
          'position / >1 call; distinct = distinct (op,args)'}
